@@ -2,6 +2,10 @@
    small-step transcription of synth/syntax/grammars/enumeration/bee_search.py.  Every theorem is about every
    grammar, cost table, rule order, filter, fuel and HISTORY (interleaving of `take k` and `merge_program`). -/
 import PS.Proofs.Enum.BeeSoundRun
+import PS.Proofs.Enum.BeeNodupRun
+import PS.Proofs.Enum.BeeCover
+import PS.Proofs.Enum.BeeOffer
+import Mathlib.Data.List.Perm.Subperm
 namespace PS.C02Bee
 open PS PS.G PS.Bee
 
@@ -78,6 +82,126 @@ example : ((Gen.new cE).bind fun g => runActs cE 1000 [.take 10] g []).map (fun 
 example : ((Gen.new cE).bind fun g => runActs cE 1000 [.take 3, .merge (.node cOne []) cInt, .take 1] g []).map
     (fun r => r.2.length) = some 4 := by
   decide +kernel
+
+/-! ### 2. NO DUPLICATES (any filter, no merge declaration)
+
+The frontier rule "increment index i until the first index > 1" (bee_search.py:210-218) is `PS.CD.succs` (shared with
+constant-delay search, `C02_Cd_successor_bijection`: every non-zero index tuple has exactly one predecessor).  The state
+invariant `GN` (PS/Proofs/Enum/BeeNodup*.lean): for every rule the PENDING combinations (queued or delayed, all rows)
+form a frontier of the successor forest (no tuple twice, none an ancestor of another); every banked program has a SOURCE,
+an expanded combination (strict ancestor of a pending one) of its rule whose i-th index is the bank index of the i-th
+argument; a program occurs in at most one index of the bank of a non-terminal, once.  A popped combination is still
+pending, so no banked program can have it as source: every candidate program is new.
+Hypotheses (decidable on the case, evaluated by the driver): `dictOK` (looking a listed rule up finds it) and
+`initFrontOK` (the fresh enumerator queues no (rule, combination) pair twice — true iff the rule table has no duplicate
+keys).  Full statement incl. merge declarations: NOT proved (after a merge, `other` leaves the banks, the source of its
+parents is gone; the implementation still yields each program at most once in every compared case). -/
+
+/-- one step keeps the no-duplicates invariant; banks only grow; a yielded program was in no index of the start symbol's
+    bank before the step and is in it afterwards -/
+theorem C02_Bee_nodup_step (E : Env S) (g g' : Gen S) (out : Option Prog) (h : step E g = some (g', out)) (hi : GN E g) :
+    GN E g' ∧ (∀ nt ci p, inBank g.st nt ci p → inBank g'.st nt ci p) ∧
+      ∀ p, out = some p → (∀ cj, ¬ inBank g.st E.G.start cj p) ∧ ∃ ci, inBank g'.st E.G.start ci p :=
+  step_nodup E g g' out h hi
+
+/-- **EACH PROGRAM AT MOST ONCE** (partial: no merge declaration in the history; any filter, grammar — finite or
+    recursive —, cost table, rule order, fuel): the yielded sequence is duplicate-free -/
+theorem C02_Bee_nodup_partial (E : Env S) (hd : dictOK E = true) (hf : initFrontOK E = true) (fuel : Nat) (acts : List Act)
+    (hacts : acts.all Act.isTake = true) (g0 g : Gen S) (out : List Prog) (h0 : Gen.new E = some g0)
+    (h : runActs E fuel acts g0 [] = some (g, out)) : out.Nodup :=
+  (runActs_nodup E fuel acts g0 g [] out hacts h (gn_new E (dictOK_of_check E hd) hf g0 h0) ⟨by simp, by simp⟩).2.1
+
+/-- **A PROGRAM ENTERS `_bank[S]` AT MOST ONCE**: after any such history every list of every bank is duplicate-free and a
+    program sits in at most one cost index of a non-terminal's bank -/
+theorem C02_Bee_bank_nodup_partial (E : Env S) (hd : dictOK E = true) (hf : initFrontOK E = true) (fuel : Nat) (acts : List Act)
+    (hacts : acts.all Act.isTake = true) (g0 g : Gen S) (out : List Prog) (h0 : Gen.new E = some g0)
+    (h : runActs E fuel acts g0 [] = some (g, out)) :
+    (∀ nt ci ps, AList.lookup ci (g.st.bankOf nt) = some ps → ps.Nodup) ∧
+    (∀ nt ci cj p, inBank g.st nt ci p → inBank g.st nt cj p → ci = cj) ∧
+    ∀ nt P, Frontier (pend g.st nt P) := by
+  have := (runActs_nodup E fuel acts g0 g [] out hacts h (gn_new E (dictOK_of_check E hd) hf g0 h0) ⟨by simp, by simp⟩).1.st
+  exact ⟨this.bankNd, this.bankU, this.front⟩
+
+/-- **THE FRONTIER RULE REACHES EVERY INDEX COMBINATION, EACH ONCE**: after any history without merge declarations, for
+    every rule `(S, P)` of the table and every index combination `c` of the rule's arity, `c` is expanded (popped: a strict
+    ancestor of a pending combination), or pending (queued or delayed), or a descendant of a pending combination — and the
+    pending combinations are pairwise distinct and none is an ancestor of another, so `c` is in exactly one of the three
+    cases and is (or will be) pushed exactly once.  Decidable hypotheses: `dictOK`, `initFrontOK`, `initCoverOK` (the
+    fresh enumerator holds the root `(0,…,0)` of every listed rule). -/
+theorem C02_Bee_frontier_cover_partial (E : Env S) (hd : dictOK E = true) (hf : initFrontOK E = true)
+    (hc : initCoverOK E = true) (fuel : Nat) (acts : List Act) (hacts : acts.all Act.isTake = true) (g0 g : Gen S)
+    (out : List Prog) (h0 : Gen.new E = some g0) (h : runActs E fuel acts g0 [] = some (g, out)) :
+    ∀ nt P args, ruleArgs E nt P = some args → ∀ c : List Nat, c.length = args.length →
+      Frontier (pend g.st nt P) ∧ Cov (pend g.st nt P) c ∧ (Done (pend g.st nt P) c → c ∉ pend g.st nt P) := by
+  intro nt P args ha c hcl
+  have hgn := gn_new E (dictOK_of_check E hd) hf g0 h0
+  have h1 := (runActs_nodup E fuel acts g0 g [] out hacts h hgn ⟨by simp, by simp⟩).1.st.front nt P
+  have h2 := runActs_cover E fuel acts g0 g [] out hacts h hgn ⟨by simp, by simp⟩ (cov_new E hc g0 h0) nt P args ha c hcl
+  exact ⟨h1, h2, fun hd' => Done.not_mem h1 hd'⟩
+
+/-- **COMPLETE WHEN THE COUNT IS REACHED** (partial correctness of the stop condition of the code as it is): bee search's
+    loop stops on the program count `G.programs()`.  If `L` lists the members of the grammar and the enumerator has yielded
+    at least `L.length` programs (no merge declaration; any filter), then it has yielded EXACTLY the language, each program
+    once: soundness + no duplicates + counting.  (That the count IS reached — termination — is not proved: it is false when
+    a rule with arguments costs 0, finding C02-F6, and with a rejecting filter, finding C12-F11.) -/
+theorem C02_Bee_count_complete_partial (E : Env S) (hd : dictOK E = true) (hf : initFrontOK E = true) (fuel : Nat)
+    (acts : List Act) (hacts : acts.all Act.isTake = true) (g0 g : Gen S) (out : List Prog) (h0 : Gen.new E = some g0)
+    (h : runActs E fuel acts g0 [] = some (g, out)) (L : List Prog) (hL : ∀ p, gen E.G p E.G.start = true → p ∈ L)
+    (hcount : L.length ≤ out.length) : out.Perm L := by
+  have hnd := C02_Bee_nodup_partial E hd hf fuel acts hacts g0 g out h0 h
+  have hsub : out ⊆ L := fun p hp => hL p (C02_Bee_sound E fuel acts g0 g out h0 h p hp)
+  exact (List.subperm_of_subset hnd hsub).perm_of_length_le hcount
+
+example : dictOK cE = true ∧ initFrontOK cE = true ∧ initCoverOK cE = true := by decide +kernel
+example : ((Gen.new cE).bind fun g => runActs cE 1000 [.take 3, .take 10] g []).map (fun r => decide r.2.Nodup && decide (r.2.length = 5)) = some true := by
+  decide +kernel
+
+/-! ### 3. the local steps of completeness (the global statement is NOT proved: compared only)
+
+Blueprint (DESIGN B.1): (i) the frontier rule reaches every index combination exactly once — `C02_Bee_frontier_cover_partial`;
+(ii) an expansion offers EVERY program that can be built from the argument banks at its indices, and takes the "failed"
+branch only when there is none — below; (iii) each offered program is banked unless rejected or deleted — below;
+(iv) no program arrives in an argument bank AFTER a combination using its index was expanded: true only when rules with
+arguments cost > 0 (`posArgCosts`), false otherwise (finding C02-F6); NOT proved. -/
+
+/-- (ii) "Generate programs" (bee_search.py:220-239): if every argument bank at the popped combination's index is non-empty,
+    every tuple of argument programs from those banks is in the product that is offered to `_add_program_` -/
+theorem C02_Bee_expansion_offers_all (s : St S) (combo : List Nat) (args : List (Ty × S)) (aps : List (List Prog))
+    (h : argsPossibles s combo args 0 = some (some aps)) (kids : List Prog) (hlen : kids.length = args.length)
+    (hk : ∀ (j : Nat) (a : Ty × S) (k : Prog) (v : Nat), args[j]? = some a → kids[j]? = some k → combo[j]? = some v →
+      inBank s (a.1, (a.2, ())) v k)
+    (hcombo : args.length ≤ combo.length) : kids ∈ product aps := offers_all s combo args aps h kids hlen hk hcombo
+
+/-- (ii) the "failed" branch (bee_search.py:224-229) is taken only when NO program can be built from the banks -/
+theorem C02_Bee_failed_branch_empty (s : St S) (combo : List Nat) (args : List (Ty × S))
+    (h : argsPossibles s combo args 0 = some none) :
+    ¬ ∃ kids : List Prog, kids.length = args.length ∧
+      ∀ (j : Nat) (a : Ty × S) (k : Prog) (v : Nat), args[j]? = some a → kids[j]? = some k → combo[j]? = some v →
+        inBank s (a.1, (a.2, ())) v k := by
+  have := no_offer s combo args 0 h
+  simpa using this
+
+/-- (iii) `_add_program_`: an offered program is banked at the cost index, or the filter rejects it (and it is recorded in
+    `_deleted`), or it was already in `_deleted` -/
+theorem C02_Bee_add_program_cases (E : Env S) (s : St S) (nt : NT S Unit) (p : Prog) (ci : Nat) :
+    ((addProgram E s nt p ci).2 = true ∧ inBank (addProgram E s nt p ci).1 nt ci p) ∨
+    ((addProgram E s nt p ci).2 = false ∧ E.filter p = false ∧ (addProgram E s nt p ci).1.deleted.contains p = true) ∨
+    ((addProgram E s nt p ci).2 = false ∧ s.deleted.contains p = true) := by
+  unfold addProgram
+  by_cases hd : s.deleted.contains p = true
+  · rw [if_pos hd]; exact Or.inr (Or.inr ⟨rfl, hd⟩)
+  · rw [if_neg hd]
+    by_cases hf : E.filter p = true
+    · have hnf : ¬ ((!E.filter p) = true) := by simp [hf]
+      rw [if_neg hnf]
+      refine Or.inl ⟨rfl, ?_⟩
+      unfold inBank
+      simp only [St.bankOf, AList.lookup_insert_self, Option.getD_some]
+      exact (inBank_append _ ci ci p p).mpr (Or.inr ⟨rfl, rfl⟩)
+    · have hnf : (!E.filter p) = true := by simpa using hf
+      rw [if_pos hnf]
+      refine Or.inr (Or.inl ⟨rfl, by simpa using hf, ?_⟩)
+      simp
 
 /-! ### finding C02-F6: a rule with arguments of cost 0 loses programs -/
 
